@@ -60,6 +60,10 @@ KNOWN_TIE = dict(proj='SIN', crval=(150.0, -30.0), cdelt=10.0 / 3600, shape=(40,
                  xo=20.5, yo=22.5, sx=8.0 / CC, sy=4.0 / CC, th=45.0, amp=1.0, snr=100.0, docov=False)
 KNOWN_RIDGE = dict(proj='SIN', crval=(150.0, -30.0), cdelt=10.0 / 3600, shape=(80, 90), beam_pix=(4.5, 4.0, 0.0),
                    xo=40.3, yo=45.6, sx=20.0 / CC, sy=5.0 / CC, th=30.0, amp=1.0, snr=100.0, docov=False)
+KNOWN_CAP = dict(proj='SIN', crval=(150.0, -30.0), cdelt=10.0 / 3600, shape=(72, 78), beam_pix=(4.0, 4.0, 0.0),
+                 xo=36.1, yo=38.95, sx=16.0 / CC, sy=4.0 / CC, th=0.0, amp=1.0, snr=5.2, docov=False)
+KNOWN_THIN = dict(proj='SIN', crval=(0.0005, 45.0), cdelt=2.0 / 3600, shape=(50, 56), beam_pix=(3.0, 3.0, 0.0), xo=25.18481059899647,
+                  yo=28.196629193821433, sx=9.9 / CC, sy=3.3 / CC, th=-88.5, amp=-4.0, snr=5.6, docov=False)
 logging.disable(logging.CRITICAL)
 
 HEADER = ("From Coq Require Import Reals Lra.\nFrom Interval Require Import Tactic.\n"
@@ -193,7 +197,13 @@ def box_conditions(spec, innerclip=5.0):
     from scipy.ndimage import label, maximum_filter
     pos = img if amp > 0 else -img
     nsummit = int(label((maximum_filter(pos, size=3) == pos) & (pos > 4.0 * rms))[1])
+    # the island of an isolated noise-free source = its pixels at or above the outer clip; the shape cap of estimate_lmfit_parinfo is
+    # (max(xsize, ysize) + 1) sqrt(2) FWHM2CC (or 1.1 x the beam sigma when that is larger) - C01_truth_within_bounds_partial carries it
+    isl = np.argwhere(pos >= 4.0 * rms)
+    ext = (int(isl[:, 0].max() - isl[:, 0].min() + 1), int(isl[:, 1].max() - isl[:, 1].min() + 1)) if len(isl) else (0, 0)
+    cap = max((max(ext) + 1) * math.sqrt(2) / CC, max(ba / CC, bb / CC * 1.01) * 1.1)
     return {'g': g, 'amp_condition': lhs <= innerclip * rms, 'amp_margin': (innerclip * rms - lhs) / abs(amp), 'single_summit': nsummit == 1,
+            'island_extent': ext, 'cap_condition': sx <= cap * (1 + 1e-12), 'cap_margin': (cap - sx) / sx,
             'position_condition': 2 * sx ** 2 <= sy ** 2 * (ba ** 2 + bb ** 2) * (1 + 1e-12),
             'beam_condition': bb / CC <= sy * (1 + 1e-12)}
 
@@ -315,6 +325,13 @@ def classify(ctx, spec, tag):
         return 'ridge_split', msg, rows, tr, c
     if not c['amp_condition']:
         return 'amp_bound', msg, rows, tr, c
+    if 0 < min(c['island_extent']) <= 2 and len(rows) == 1 and rows[0]['flags'] & 4:
+        # recorded finding: an island at most 2 pixels across is not given the six-parameter fit; the component is FLAGGED FIXED2PSF
+        return 'fixed2psf', msg, rows, tr, c
+    if not c['cap_condition'] and len(rows) == 1 and rows[0]['a'] < tr['a']:
+        # recorded finding: the island-size cap of sx / sy excludes the true major axis (faint elongated source: the island is shorter
+        # than the source); the reported major axis is then too SHORT
+        return 'shape_cap', msg, rows, tr, c
     return 'violation', msg, rows, tr, c
 
 
@@ -334,6 +351,23 @@ def gen_elongated(rng, k):
                 cdelt=rng.choice([2.0, 10.0, 30.0]) / 3600, shape=shape, beam_pix=beam_pix,
                 xo=shape[0] // 2 + rng.uniform(-.5, .5), yo=shape[1] // 2 + rng.uniform(-.5, .5), sx=sx, sy=sy, th=th,
                 amp=rng.choice([1.0, 0.02, -4.0]), snr=rng.choice([20.0, 100.0]), docov=bool(k % 3 == 0))
+
+
+def gen_narrow(rng, k):
+    """faint sources elongated along a pixel axis whose island (pixels above the outer clip) is only 3 - 5 pixels wide: minor axis = beam
+    (3 - 4 px FWHM), axis ratio 2.5 - 4, S/N 5.4 - 14; the width realised is recorded in box_conditions()['island_extent']"""
+    bp = rng.choice([3.0, 3.5, 4.0])
+    axr = rng.choice([2.5, 3.0, 4.0])
+    sy = bp / CC * rng.choice([1.0, 1.0, 1.1])
+    sx = sy * axr
+    th = rng.choice([0.0, 90.0, 180.0, -90.0]) + rng.choice([0.0, 0.0, 1.5, -2.0])
+    n = int(2 * math.ceil(4.0 * sx) + 16)
+    shape = (n, n + 6)
+    spec = dict(proj=PROJS[k % 5], crval=(rng.choice([0.0005, 150.0, 275.0]), rng.choice([-60.0, -30.0, 0.0, 45.0])),
+                cdelt=rng.choice([2.0, 10.0, 30.0]) / 3600, shape=shape, beam_pix=(bp, bp, 0.0),
+                xo=shape[0] // 2 + rng.uniform(-.2, .2), yo=shape[1] // 2 + rng.uniform(-.2, .2), sx=sx, sy=sy, th=th,
+                amp=rng.choice([1.0, 0.02, -4.0]), snr=rng.choice([5.4, 5.6, 6.0, 6.5, 7.0, 8.0, 10.0, 14.0]), docov=bool(k % 2))
+    return spec
 
 
 # ------------------------------------------------------------------------------------------
@@ -638,6 +672,16 @@ def known_finding_replay(ctx):
         lines.append(f"amplitude bound excludes the truth: beam 3 px FWHM, centre offset (0.5, 0.5) px, S/N 1e4 -> reported peak = {ratio:.4f} x injected "
                      f"(= 1.05 g + 5/SNR, g = {c['g']:.4f}), a = {rows[0]['a'] / tr['a']:.4f} x injected, flags = {rows[0]['flags']}; "
                      f"condition amp (1 - 1.05 g) <= innerclip rms violated")
+    cls, msg, rows, tr, c = classify(ctx, dict(KNOWN_CAP), 'known')
+    if cls == 'shape_cap':
+        lines.append(f"island-size cap excludes the truth: 16 x 4 px FWHM source (beam 4 px) along the rows at S/N 5.2: island {c['island_extent']} px, "
+                     f"cap {(max(c['island_extent']) + 1) * math.sqrt(2):.2f} px FWHM < 16 -> reported a = {rows[0]['a'] / tr['a']:.4f} x injected, "
+                     f"peak = {rows[0]['peak_flux'] / tr['peak']:.4f} x injected, flags = {rows[0]['flags']}; condition sx <= (max(xsize, ysize) + 1) sqrt2 FWHM2CC violated")
+    cls, msg, rows, tr, c = classify(ctx, dict(KNOWN_THIN), 'known')
+    if cls == 'fixed2psf':
+        lines.append(f"island 2 pixels across is fixed to the psf: 9.9 x 3.3 px FWHM source (beam 3 px) along the columns at S/N 5.6: island "
+                     f"{c['island_extent']} px -> one component flagged FIXED2PSF (flags = {rows[0]['flags']}) with a = {rows[0]['a'] / tr['a']:.4f} x injected, "
+                     f"peak = {rows[0]['peak_flux'] / tr['peak']:.4f} x injected")
     parts = []
     for name, spec in (('exact tie (2:1, theta 45, centre exactly (0.5, 0.5) px off a pixel centre)', dict(KNOWN_TIE)),
                        ('oblique ridge (4:1, 20 x 5 px FWHM, theta 30, centre (40.3, 45.6), S/N 100)', dict(KNOWN_RIDGE))):
@@ -751,6 +795,8 @@ def run(ctx, model_ok=True):
                              is_violation={'kind': 'loop', 'injection': spec, 'what': msg, 'truth': tr, 'reported': rows})
         elif cls == 'amp_bound':
             stats['violated_fail'] += 1
+        elif cls in ('shape_cap', 'fixed2psf'):
+            stats[cls] = stats.get(cls, 0) + 1
         else:
             stats['satisfied_pass' if c['amp_condition'] else 'violated_pass'] += 1
         return cls
@@ -763,14 +809,25 @@ def run(ctx, model_ok=True):
             worst_rt, worst_conf, worst_scale = max(worst_rt, rt), max(worst_conf, conf), max(worst_scale, sc)
     # strongly elongated sources (axis ratio 2.5 - 5)
     nel = 16 if quick else 120
-    el = {'pass': 0, 'ridge_split': 0, 'amp_bound': 0, 'violation': 0}
+    el = {'pass': 0, 'ridge_split': 0, 'amp_bound': 0, 'shape_cap': 0, 'fixed2psf': 0, 'violation': 0}
     for k in range(nel):
         el[one(gen_elongated(rng, k), k, 'elongated', f'e{k % 4}')] += 1
     ctx.extra['elongated'] = el
+    # faint narrow islands (3 - 5 pixels across): the six-parameter fit must still be made (FIXED2PSF is for islands <= 2 pixels across)
+    nnar = 16 if quick else 100
+    nar = {'pass': 0, 'ridge_split': 0, 'amp_bound': 0, 'shape_cap': 0, 'fixed2psf': 0, 'violation': 0}
+    widths = {}
+    for k in range(nnar):
+        spec = gen_narrow(rng, k)
+        w = min(box_conditions(spec)['island_extent'])
+        widths[w] = widths.get(w, 0) + 1
+        nar[one(spec, k, f'narrow island ({w} px)', f'n{k % 4}')] += 1
+    ctx.extra['narrow'] = {'classes': nar, 'island_widths': widths}
+    ctx.notes.append(f"narrow-island injections (minor axis = beam, along a pixel axis, S/N 5.4-14): {nar}; island widths {widths}")
     ctx.notes.append(f"elongated injections (axis ratio 2.5-5, all orientations, S/N 20 / 100): {el}")
     nsat = stats['satisfied_pass'] + stats['satisfied_fail']
-    ctx.oblige(f'optimiser hypothesis (closed loop): of {nloop + nel} noise-free injections ({nel} with axis ratio 2.5-5) the {nsat} that satisfy '
-               f'amp (1 - 1.05 g) <= innerclip rms and do not show the recorded ridge-split signature are recovered within the tolerances',
+    ctx.oblige(f'optimiser hypothesis (closed loop): of {nloop + nel + nnar} noise-free injections ({nel} with axis ratio 2.5-5, {nnar} with islands 3-5 pixels across) the {nsat} that satisfy '
+               f'amp (1 - 1.05 g) <= innerclip rms and sx <= island-size cap, whose island is more than 2 pixels across, and do not show the recorded ridge-split signature are recovered within the tolerances',
                nfail == 0, f'{nfail} failures')
     ctx.hyp['minimize returns the zero-residual truth when started inside the box (closed loop, derived conditions hold)'] = stats['satisfied_pass']
     ctx.extra['amp_condition_table'] = stats
@@ -839,11 +896,12 @@ def run(ctx, model_ok=True):
     recorded = [t for kind, t in vlib.known_findings('C01') if kind == 'finding']
     lines = known_finding_replay(ctx)
     for line in lines:
-        key = 'amplitude' if line.startswith('amplitude') else 'identical shape'
+        key = ('amplitude' if line.startswith('amplitude') else 'island-size cap' if line.startswith('island-size cap') else
+               'fixed to the psf' if line.startswith('island 2 pixels') else 'identical shape')
         if any(key in t for t in recorded):
             ctx.known_lines.append(line)
         else:
-            inj = KNOWN if key == 'amplitude' else KNOWN_RIDGE
+            inj = KNOWN if key == 'amplitude' else KNOWN_CAP if key == 'island-size cap' else KNOWN_THIN if key == 'fixed to the psf' else KNOWN_RIDGE
             ctx.mismatch('closed loop: this input fails and is not listed in known_findings.txt', inj, impl=line,
                          is_violation={'kind': 'loop', 'injection': inj, 'what': line})
 
@@ -867,7 +925,7 @@ def search(ctx):
     t0 = time.time()
     k = 0
     while time.time() - t0 < 150:
-        spec = gen_elongated(rng, k) if k % 2 else gen_spec(rng, k, want_ok=True)
+        spec = gen_narrow(rng, k) if k % 3 == 2 else gen_elongated(rng, k) if k % 2 else gen_spec(rng, k, want_ok=True)
         k += 1
         cls, msg, rows, tr, c = classify(ctx, spec, 'search')
         if cls == 'violation':
